@@ -2,7 +2,7 @@
    Only statements, `exact`, Print Assumptions (+ concrete non-vacuity examples). Definitions: Model/C04Model.v. *)
 From Coq Require Import List Arith Bool ZArith.
 From PV Require Import Base.Index Np.Array Model.Sparse Model.C04Model Proofs.C04Dense Proofs.C04Sparse Proofs.C04History Proofs.C04Admissible Proofs.C04RegionGet Proofs.C04Region
-  Model.Harness Model.C04Harness Model.C04Mat Model.C04Extra Proofs.C04NpAdv Proofs.C04Mat.
+  Model.Harness Model.C04Harness Model.C04Mat Model.C04Extra Proofs.C04NpAdv Proofs.C04Mat Model.C04AdvVal Proofs.C04AdvVal Model.C04SpMatImpl Proofs.C04SpMatImpl Proofs.C04SpMatAgree Proofs.C04NpAdvExact.
 Import ListNotations.
 
 Section C04.
@@ -177,6 +177,42 @@ Theorem C04_sptenmat_history_total : forall ops (S : sparse V) a a' outs,
   exists S', run (fixed_step_sparse_g v0 isz) S ops = Some (S', outs) /\ eq_amap (abs_sp v0 S') a' /\ wf_sp isz S' /\
              sshape S' = sshape S.
 Proof. exact (sptenmat_history_total v0 isz isz_spec). Qed.
+
+(* ---- wave 4: sptenmat.__setitem__ as pyttb computes it (TRANSLITERATION Model/C04SpMatImpl.v: in-place overwrite of stored
+   positions, `pending` table for positions appended earlier in the same call, append, lexsort, zero purge; the sptenmat_set
+   stream compares pyttb's raw state, stored order included, with exactly this function) ---- *)
+(* the entry list it computes: every position holds the LAST value addressed to it in the call, all others keep theirs *)
+Theorem C04_sptenmat_setitem_entries : forall (es asg : list (idx * V)), NoDup (map fst es) ->
+  forall j, last_match j (sptenmat_set_entries isz es asg) v0 = last_match j asg (last_match j es v0).
+Proof. exact (sptenmat_set_entries_den v0 isz isz_spec). Qed.
+
+(* refinement + invariant: from every well-formed state (any stored order), for every key and right-hand side the code accepts,
+   the new state denotes spec_set on the SAME shape, is well-formed (in range, no duplicate subscript - C04-N14 -, no stored zero -
+   C04-N08 -, equal lengths) and is still a 2-way object *)
+Theorem C04_sptenmat_setitem_refines : forall (S S' : sparse V) es (r : rhs V),
+  wf_sp isz S -> sptenmat_setitem isz S es r = Some S' ->
+  exists ls asg,
+    region_lists (sshape S) es = Some ls /\
+    finish_set r (sshape S) (cartF (map snd ls)) = Some (sshape S, asg) /\
+    eq_amap (abs_sp v0 S') (spec_set v0 (abs_sp v0 S) (sshape S) asg) /\
+    wf_sp isz S' /\ sshape S' = sshape S /\ is_2way (sshape S') = true.
+Proof. exact (sptenmat_setitem_refines v0 isz isz_spec). Qed.
+
+(* it accepts every request whose key resolves inside the fixed shape (negative integers normalised, out-of-range rejected -
+   C04-N09) with a scalar or exactly sized right-hand side *)
+Theorem C04_sptenmat_setitem_total : forall (S : sparse V) es (r : rhs V) ls s' asg,
+  is_2way (sshape S) = true -> length es = 2 ->
+  region_lists (sshape S) es = Some ls -> finish_set r (sshape S) (cartF (map snd ls)) = Some (s', asg) ->
+  exists S', sptenmat_setitem isz S es r = Some S'.
+Proof. exact (sptenmat_setitem_total isz). Qed.
+
+(* the transliteration and the executable specification agree: whenever the generic fixed-shape sparse step (the function of
+   C04_sptenmat_refine / _refine_total) performs a region assignment, the transliterated __setitem__ accepts it and both results
+   have the same shape and denote the same array *)
+Theorem C04_sptenmat_impl_agrees : forall (S S1 : sparse V) es (r : rhs V) out,
+  wf_sp isz S -> fixed_step_sparse_g v0 isz S (OSet (KRegion es) r) = Some (S1, out) ->
+  exists S2, sptenmat_setitem isz S es r = Some S2 /\ sshape S2 = sshape S1 /\ forall j, den_sp v0 S2 j = den_sp v0 S1 j.
+Proof. exact (sptenmat_impl_agrees v0 isz isz_spec). Qed.
 End C04.
 
 (* key lists WITHOUT a repeated index: every stored entry inside the region lands on exactly one result subscript, the
@@ -185,6 +221,42 @@ Theorem C04_region_read_single_position : forall ls p,
   Forall (fun x : bool * list nat => NoDup (snd x)) ls ->
   renumber_all ls p = match renumber ls p with Some j => [j] | None => [] end.
 Proof. exact (fun ls p H => renumber_all_nodup_lists ls H p). Qed.
+
+(* ---- wave 4: VALUE-ARRAY right-hand sides through keys with index lists (A-16 key class and neighbours), dense side:
+   pyttb grows the tensor from the key and lets numpy assign: zipped selection, value BROADCAST against its shape
+   (Model/C04AdvVal.v: np_bcast, np_adv_set_values; the np_adv stream runs exactly these functions) ---- *)
+(* a value of exactly the target shape is assigned unchanged, for every shape and value type *)
+Theorem C04_np_bcast_exact : forall {V : Type} (v0 : V) (os : shape) (data : list V),
+  length data = size os -> np_bcast v0 os data os = Some data.
+Proof. exact @np_bcast_exact. Qed.
+
+(* hence the write of a value shaped like numpy's result is the sequential assignment of its F-order values to the zipped positions *)
+Theorem C04_np_adv_set_values_exact : forall {V : Type} (v0 : V) (T : dense V) es os ps (data : list V),
+  has_list es = true -> region_ok (dshape T) es = true ->
+  np_adv_positions (grow (dshape T) (map elem_need es)) es = Some (os, ps) ->
+  forallb (inb (grow (dshape T) (map elem_need es))) ps = true ->
+  length data = size os ->
+  np_adv_set_values v0 T es os data = Some (dense_assign v0 T (grow (dshape T) (map elem_need es)) (combine ps data), false).
+Proof. exact @np_adv_set_values_exact. Qed.
+
+(* and every position such a write touches lies inside the outer-product region of the key on the grown shape *)
+Theorem C04_np_adv_set_values_in_region : forall {V : Type} (v0 : V) (T : dense V) es vs (data : list V) T' os ps ls,
+  np_adv_set_values v0 T es vs data = Some (T', false) ->
+  np_adv_positions (grow (dshape T) (map elem_need es)) es = Some (os, ps) ->
+  region_lists (grow (dshape T) (map elem_need es)) es = Some ls ->
+  Forall (fun p => In p (cartF (map snd ls))) ps.
+Proof. exact @np_adv_set_values_in_region. Qed.
+
+(* OUTSIDE the class of the open finding A-16 numpy and the outer product coincide: a key with exactly ONE index list whose other
+   elements are slices (A / B = the selections of the slices before / after the list l) selects, under numpy's advanced indexing,
+   exactly the outer-product region, with the same result shape and in the same (F) order - for every shape and key *)
+Theorem C04_np_adv_single_list : forall (s : shape) (es : list kelem) ls (A B : list (list nat)) (l : list nat),
+  s <> [] -> region_lists s es = Some ls ->
+  map is_adv es = repeat false (length A) ++ true :: repeat false (length B) ->
+  map snd ls = A ++ l :: B ->
+  (forall kl, In kl ls -> fst kl = true) ->
+  np_adv_positions s es = Some (kept_shape ls, cartF (map snd ls)).
+Proof. exact np_adv_single_list. Qed.
 
 (* slices never address a position twice (Python slice semantics, any bounds and any non-zero step) *)
 Theorem C04_slice_positions_distinct : forall len a b c, NoDup (py_slice len a b c).
@@ -226,6 +298,14 @@ Print Assumptions C04_tenmat_history.
 Print Assumptions C04_sptenmat_refine.
 Print Assumptions C04_sptenmat_refine_total.
 Print Assumptions C04_sptenmat_history_total.
+Print Assumptions C04_sptenmat_setitem_entries.
+Print Assumptions C04_sptenmat_setitem_refines.
+Print Assumptions C04_sptenmat_setitem_total.
+Print Assumptions C04_sptenmat_impl_agrees.
+Print Assumptions C04_np_adv_single_list.
+Print Assumptions C04_np_bcast_exact.
+Print Assumptions C04_np_adv_set_values_exact.
+Print Assumptions C04_np_adv_set_values_in_region.
 
 (* non-vacuity: a concrete history on a 2x3 tensor whose sparse form is stored out of order — write by subscripts with a
    duplicate and a zero (deletes [0,0]), grow by a full subscript, write a stepped region, read linearly and by region *)
@@ -290,3 +370,30 @@ Example C04_example_region_read_repeated :
   option_map (wf_spb (Z.eqb 0)) (sp_region_get ex_S32 [KList [2; 0; 2]; KList [1; 1]]) = Some true /\
   option_map (full 0) (sp_region_get ex_S32 [KList [2; 0; 2]; KList [1; 1]]) = Some (mkDense [3; 2]%nat [5; 4; 5; 5; 4; 5]).
 Proof. repeat split; vm_compute; reflexivity. Qed.
+
+(* wave 4 non-vacuity: a value array through two index lists is ZIPPED by numpy (2 positions), a 1-element value is broadcast,
+   a value of the outer-product shape is refused by numpy (after growth: here none) *)
+Example C04_example_np_adv_values :
+  np_adv_set_values 0 (mkDense [2; 3]%nat [0; 3; 1; 4; 2; 5]) [KList [0; 1]; KList [0; 2]] [2]%nat [7; 8]
+    = Some (mkDense [2; 3]%nat [7; 3; 1; 4; 2; 8], false) /\
+  np_adv_set_values 0 (mkDense [2; 3]%nat [0; 3; 1; 4; 2; 5]) [KList [0; 1]; KList [0; 2]] [2; 2]%nat [7; 9; 8; 4]
+    = Some (mkDense [2; 3]%nat [0; 3; 1; 4; 2; 5], true) /\
+  np_adv_set_values 0 (mkDense [2; 3]%nat [0; 3; 1; 4; 2; 5]) [KList [0; 1]; KList [0; 2]] [1]%nat [7]
+    = Some (mkDense [2; 3]%nat [7; 3; 1; 4; 2; 7], false).
+Proof. exact np_adv_set_values_example. Qed.
+
+(* wave 4 non-vacuity: the transliterated sptenmat.__setitem__ on the C04-N14 / C04-N08 / C04-N09 witnesses *)
+Example C04_example_sptenmat_impl :
+  option_map (fun S => (ssubs S, svals S)) (sptenmat_setitem (Z.eqb 0) (mkSp [2; 4]%nat [[0; 0]; [1; 2]; [1; 3]]%nat [1; 3; 2]) [KList [1; 1]; KInt 1] (RValues [6; 8]))
+    = Some ([[0; 0]; [1; 1]; [1; 2]; [1; 3]]%nat, [1; 8; 3; 2]) /\
+  option_map (fun S => (ssubs S, svals S)) (sptenmat_setitem (Z.eqb 0) (mkSp [2; 4]%nat [[1; 3]; [0; 0]; [1; 2]]%nat [2; 1; 3]) [KInt 0; KInt 0] (RScalar 0))
+    = Some ([[1; 3]; [1; 2]]%nat, [2; 3]) /\
+  sptenmat_setitem (Z.eqb 0) (mkSp [2; 4]%nat [[1; 3]; [0; 0]; [1; 2]]%nat [2; 1; 3]) [KInt 2; KInt 0] (RScalar 5) = None /\
+  option_map (fun S => (ssubs S, svals S)) (sptenmat_setitem (Z.eqb 0) (mkSp [2; 4]%nat [[1; 3]; [0; 0]; [1; 2]]%nat [2; 1; 3]) [KInt (-1); KInt 0] (RScalar 5))
+    = Some ([[0; 0]; [1; 0]; [1; 2]; [1; 3]]%nat, [1; 5; 3; 2]).
+Proof. repeat split; vm_compute; reflexivity. Qed.
+
+Example C04_example_np_adv_single_list :
+  np_adv_positions [3; 4; 2]%nat [KSlice None None (Some 2); KList [3; 0; 3]; KSlice None None None]
+  = Some ([2; 3; 2]%nat, cartF [[0; 2]; [3; 0; 3]; [0; 1]]%nat).
+Proof. exact np_adv_single_list_example. Qed.
